@@ -28,6 +28,7 @@ class N2(PaneBase):
     c: int = field(in_names=('cee', 'C'), default=0)
     d: int = field(rename='dee', default=0)
     e: int = field(out_name='E', default=0)
+    f: int = field(rename='eff', out_name='F', default=0)      # an explicit out_name wins over rename
 
 
 class N3(PaneBase, rename='camel'):
@@ -49,7 +50,7 @@ class N5(PaneBase, allow_extra=True):
 class N6(PaneBase, in_format=('tuple',), out_format='tuple'):
     a: int
     b: int = 0
-    c: int = field(init=False, default=9)
+    c: str = field(init=False, default='nine')      # not an int: a mis-aligned positional binding shows
     d: int = 1
     _: KW_ONLY
     k: int = 0
@@ -73,7 +74,8 @@ REF = {
     N2: ((('a_b', ('a_b', 'ab', 'AB'), 'a_b', True, True, True, False),
           ('c', ('c', 'cee', 'C'), 'c', False, True, True, False),
           ('d', ('d', 'dee'), 'dee', False, True, True, False),
-          ('e', ('e',), 'E', False, True, True, False)),
+          ('e', ('e',), 'E', False, True, True, False),
+          ('f', ('f', 'eff'), 'F', False, True, True, False)),
          dict(allow_extra=False, in_format=('struct',), out_format='struct')),
     N3: ((('foo_bar', ('foo_bar', 'fooBar'), 'fooBar', True, True, True, False),
           ('baz', ('baz',), 'baz', False, True, True, False),
@@ -94,12 +96,12 @@ REF = {
     N8: ((('a', ('a',), 'a', False, True, True, False),),
          dict(allow_extra=False, in_format=('struct',), out_format='struct')),
 }
-DEFAULT = {N1: {'b': 0}, N2: {'c': 0, 'd': 0, 'e': 0}, N3: {'baz': 0, 'qux_x': 0}, N4: {'baz': 0}, N5: {'b': 0},
-           N6: {'b': 0, 'c': 9, 'd': 1, 'k': 0}, N7: {'b': 0, 'x': 5}, N8: {'a': 0}}
+DEFAULT = {N1: {'b': 0}, N2: {'c': 0, 'd': 0, 'e': 0, 'f': 0}, N3: {'baz': 0, 'qux_x': 0}, N4: {'baz': 0}, N5: {'b': 0},
+           N6: {'b': 0, 'c': 'nine', 'd': 1, 'k': 0}, N7: {'b': 0, 'x': 5}, N8: {'a': 0}}
 # key vocabulary per class: every name the class can distinguish in some style + foreign keys
 VOCAB = {
     N1: ('a', 'b', 'A', 'zz'),
-    N2: ('a_b', 'ab', 'AB', 'aB', 'c', 'cee', 'C', 'd', 'dee', 'e', 'E', 'zz'),
+    N2: ('a_b', 'ab', 'AB', 'aB', 'c', 'cee', 'C', 'd', 'dee', 'e', 'E', 'f', 'eff', 'F', 'zz'),
     N3: ('foo_bar', 'fooBar', 'FooBar', 'foo-bar', 'baz', 'qux_x', 'quxX', 'qx', 'zz'),
     N4: ('foo_bar', 'foo-bar', 'fooBar', 'FOO_BAR', 'baz', 'zz'),
     N5: ('a', 'b', 'zz', 'yy'),
